@@ -154,6 +154,8 @@ def c10(S0, S1, written_cols=()):
     base, _, tgt = typ.partition(':')
     if base not in ('Ref', 'RefList') or tgt not in removed:
       continue
+    if (t, c) in written_cols:
+      continue      # the bundle itself wrote this column after the removal: not judged
     gone = removed[tgt]
     old = None
     m0 = meta0.get((t, c))
